@@ -225,8 +225,9 @@ class SimOps:
         if strip_forks:
             for f in circuit.forks.values():
                 if len(f.ins) == 0 or f.ins[0] is None: continue  # fork without driver, e.g. a primary input in bench-style circuits
+                if f in interface_dict: continue  # a port that is also read: its branches carry the assigned value, not the stem
                 prev_line = f.ins[0]
-                while prev_line.driver.kind == '__fork__' and len(prev_line.driver.ins) > 0 and prev_line.driver.ins[0] is not None:
+                while prev_line.driver.kind == '__fork__' and prev_line.driver not in interface_dict and len(prev_line.driver.ins) > 0 and prev_line.driver.ins[0] is not None:
                     prev_line = prev_line.driver.ins[0]
                 stem_idx = prev_line.index
                 for ol in f.outs:
